@@ -144,7 +144,16 @@ def alphabet(seed: int) -> dict:
               'al_a': 0.75, 'al_b': 0.5, 'al_c': 0.25 + d / 4, 'p_a': 0.5, 'p_b': 1.0, 'p_c': 2.0,
               'scale': 0.5 + d / 2, 'm_a': -1.0, 'm_b': 0.5, 'm_x': -0.125, 'm_c': -0.25 - d})
     rows = [{'x': 1.0, 'z': 0.5 + d, 'unused': 7.0}, {'x': 2.0 + d, 'z': -1.0, 'unused': -3.0}]
-    return dict(psets={'D': D, 'A': A, 'B': B}, rows=rows)
+    # ties (part g).  T: the three goods are identical (every utility 0 + 0 * x, the same gamma / alpha / price / mu): the
+    # marginal utilities at zero of goods given the same draw are bitwise equal.  U: A and B identical, C as in D.
+    T = dict(D)
+    T.update({'b_a': 0.0, 'b_x': 0.0, 'b_b': 0.0, 'b_z': 0.0, 'g_a': 1.5 + d, 'g_b': 1.5 + d, 'g_c': 1.5 + d,
+              'al_a': 0.5, 'al_b': 0.5, 'al_c': 0.5, 'p_a': 2.0 - d, 'p_b': 2.0 - d, 'p_c': 2.0 - d,
+              'm_a': -0.5, 'm_b': -0.5, 'm_x': 0.0, 'm_c': -0.5})
+    U = dict(D)
+    U.update({'b_a': 0.25 + d, 'b_x': 0.0, 'b_b': 0.25 + d, 'g_a': 2.0, 'g_b': 2.0, 'al_a': 0.25 + d / 4, 'al_b': 0.25 + d / 4,
+              'p_a': 1.0, 'p_b': 1.0, 'm_a': -0.5, 'm_b': -0.5, 'm_x': 0.0})
+    return dict(psets={'D': D, 'A': A, 'B': B, 'T': T, 'U': U}, rows=rows)
 
 
 _SEED = int(os.environ.get('VERIF_SEED', '0') or 0)
@@ -1646,6 +1655,16 @@ H_EPS = (1.0, 0.0, -1.0)
 H_BUDGET = 10.0
 
 
+K_REFUSED = ('C18|result-differs-from-fresh-model-with-same-parameters'
+             '|history=[refused-estimation_results-assignment(not-a-results-object),use]')
+X_VALUES = ('dict', 'none', 'int')
+
+
+def refused_value(kind, alph):
+    """What a caller may hand to the estimation_results setter by mistake: the dictionary of values itself, None, a number."""
+    return {'dict': dict(alph['psets']['B']), 'none': None, 'int': 3}[kind]
+
+
 def history_violation(cfg, lab, hist, bad, alph):
     """Key and text of a failing history step.  The step is re-executed on a *fresh* model that is only given the
     current parameters: if it passes there, the result depends on the history (stale state); otherwise the failure
@@ -1663,6 +1682,9 @@ def history_violation(cfg, lab, hist, bad, alph):
         used_before = any(op[0] != 'S' and op[1] == row for op in h[:max(last_set, 0)])
         pat = 'history=[use(row),set-parameters,use(row)]' if used_before else 'history=other'
         key = vkey('result-differs-from-fresh-model-with-same-parameters', cfg) + '|' + pat
+        if any(op[0] == 'X' for op in h) and run_history(cfg, lab, [op for op in h if op[0] != 'X'], alph) is None:
+            # the same history without the refused assignments passes: one finding, whatever the variant
+            key = K_REFUSED
         what = (f'{cfg_name(cfg)} labels {lab["labels"]}: after the history {h} step {i} gives {clause} ({detail}); '
                 f'a fresh model given parameters {cur} passes the same step')
     else:
@@ -1687,6 +1709,18 @@ def run_history(cfg, lab, hist, alph, rec=None, one=None, name=None):
             if rec is not None:
                 rec.transition()
             continue
+        if kind == 'X':
+            # an assignment the setter refuses (it raises): the model keeps the parameters it had
+            try:
+                model.estimation_results = refused_value(op[1], alph)
+            except Exception:  # noqa: BLE001
+                if rec is not None:
+                    rec.transition()
+                    rec.count('refused_assignments')
+                continue
+            if rec is not None:
+                rec.count('skipped_out_of_model:non-results-object-accepted-by-the-setter')
+            return None
         ri = int(op[1])
         ref = Ref(cfg, alph['psets'][cur], alph['rows'][ri])
         bad = None
@@ -1705,12 +1739,18 @@ def run_history(cfg, lab, hist, alph, rec=None, one=None, name=None):
             vals = []
             for k in range(3):
                 x = 1.0 + k
-                u = float(model.utility_one_alternative(the_id=labels[k], the_consumption=x, epsilon=H_EPS[k], one_observation=one[ri]))
-                d = float(model.derivative_utility_one_alternative(the_id=labels[k], the_consumption=x, epsilon=H_EPS[k], one_observation=one[ri]))
                 lam = 8.0
                 oc = None
-                if lam > ref.dual_floor(k, H_EPS[k]) + 1e-9:
-                    oc = float(model.optimal_consumption_one_alternative(the_id=labels[k], dual_variable=lam, epsilon=H_EPS[k], one_observation=one[ri]))
+                try:
+                    u = float(model.utility_one_alternative(the_id=labels[k], the_consumption=x, epsilon=H_EPS[k], one_observation=one[ri]))
+                    d = float(model.derivative_utility_one_alternative(the_id=labels[k], the_consumption=x, epsilon=H_EPS[k], one_observation=one[ri]))
+                    if lam > ref.dual_floor(k, H_EPS[k]) + 1e-9:
+                        oc = float(model.optimal_consumption_one_alternative(the_id=labels[k], dual_variable=lam, epsilon=H_EPS[k], one_observation=one[ri]))
+                except Exception as ex:  # noqa: BLE001
+                    bad = ('piece-raises:' + type(ex).__name__, f'good {GOODS[k]} x={x}: {str(ex)[:200]}',
+                           dict(utility=ref.U(k, x, H_EPS[k])), f'{type(ex).__name__}: {str(ex)[:200]}')
+                    vals.append(('raised', type(ex).__name__))
+                    break
                 vals.append((u, d, oc))
                 ur, dr = ref.U(k, x, H_EPS[k]), ref.MU(k, x, H_EPS[k])
                 if bad is None and not (close(u, ur, PIECE_REL, PIECE_ABS) and close(d, dr, PIECE_REL, PIECE_ABS)):
@@ -1748,8 +1788,8 @@ def _round(o):
     return o
 
 
-def h_ops():
-    return [('S', 'A'), ('S', 'B'), ('F', 0), ('F', 1), ('U', 0), ('V', 0)]
+def h_ops(refused=()):
+    return [('S', 'A'), ('S', 'B'), ('F', 0), ('F', 1), ('U', 0), ('V', 0)] + [('X', k) for k in refused]
 
 
 def _part_h(task, rec):
@@ -1757,11 +1797,14 @@ def _part_h(task, rec):
     cfg, lab = task['cfg'], task['lab']
     _, one = make_rows(alph['rows'])
     name = cfg_name(cfg)
-    ops = h_ops()
+    ops = h_ops(task.get('refused', ()))
+    seen = set()
     rest = task['depth'] - len(task['prefix'])
     for tail in itertools.product(ops, repeat=rest):
         hist = [tuple(o) for o in task['prefix']] + list(tail)
-        if hist[-1][0] == 'S':
+        if task.get('only_with_refused') and not any(o[0] == 'X' for o in hist):
+            continue     # covered by the tasks without refused assignments
+        if hist[-1][0] in ('S', 'X'):
             # nothing is observed after a final parameter change; the prefix is covered by the other histories
             rec.count('histories_ending_in_set_skipped')
             continue
@@ -1770,6 +1813,10 @@ def _part_h(task, rec):
         if bad:
             h = hist[:bad[0] + 1]
             key, what = history_violation(cfg, lab, h, bad, alph)
+            if key in seen:
+                rec.count('further_witnesses_of_a_reported_key')
+                continue
+            seen.add(key)
             # minimal witness: drop earlier operations as long as the same finding is produced
             shrunk = True
             while shrunk and len(h) > 1:
@@ -2054,6 +2101,217 @@ def _part_e(task, rec):
                       expected=out['expected'], observed=out['observed'])
 
 
+# --------------------------------------------------------------------------- part g: goods, ties, magnitudes
+# 'For each variant and ANY parameter values ...': the remaining dimensions of the consumer problem.
+#   goods       models with one or two goods (every non-empty subset of A, B, C x which of them, if any, is the outside
+#               good -- including the model whose only good is the outside good: it gets the whole budget)
+#   ties        parameter sets T (three identical goods) and U (A and B identical): with equal draws the marginal utilities
+#               at zero are bitwise equal, the order of the goods is decided by a tie; the optimum stays unique (symmetric)
+#   magnitudes  every baseline utility shifted by a constant s (parameter set 'D@-30': V_k - 30): the optimal multiplier
+#               moves over many orders of magnitude (exp(s)), the optimal consumptions of the variants gamma / translated /
+#               generalized do not move at all
+# Every problem goes to forecast_bisection_one_draw (default options) and is judged by the same oracle as part f; one
+# (configuration, parameter set) per task also to Mdcev.forecast and to the brute-force optimiser (lower bound).
+# A task holds the four variants: a clause failing under every variant of the task is keyed 'variant:any'.
+G_TINY = 1e-5          # 'tiny' distance of the optimal multiplier from its lower limit (0; non monotonic: max mu_k + eps_k)
+K_TINY = ('C18|forecast-wrong-when-the-optimal-multiplier-is-within-1e-5-of-its-lower-limit'
+          '|a-call-with-tolerance_dual-scaled-to-that-distance-passes')
+SHIFTS_QUICK = (-30.0, -12.0, 12.0)
+SHIFTS_THOROUGH = (-30.0, -20.0, -12.0, -6.0, 6.0, 12.0, 30.0)
+
+
+def pset_values(alph, pset, row):
+    """Values of a parameter set; 'D@-30' = set D with every baseline utility of that row shifted by -30."""
+    base, _, shift = pset.partition('@')
+    values = dict(alph['psets'][base])
+    if shift:
+        sh = float(shift)
+        values['b_a'] += sh
+        values['b_b'] += sh
+        values['b_z'] += sh / row['z']
+    return values
+
+
+def subsets_with_og(sizes):
+    out = []
+    for n in sizes:
+        for goods in itertools.combinations(range(3), n):
+            for og in (None,) + goods:
+                out.append((list(goods), og))
+    return out
+
+
+def g_well_conditioned(ref, lamref, eps):
+    """The optimal multiplier must be resolvable in floating point: its distance from the lower limit (non monotonic:
+    max mu_k + eps_k) has to be at least 1e9 ulp of the multiplier.  -> (ok, distance)"""
+    floor = max(ref.dual_floor(k, eps[k]) for k in ref.active)
+    room = lamref - floor
+    return room > 1e9 * math.ulp(max(abs(lamref), abs(floor), 1e-300)), room
+
+
+def gkey(clause, variant, cfg, extra):
+    n = len(cfg['goods'])
+    og = 'none' if cfg['og'] is None else ('yes' if n > 1 else 'yes(the-only-good)')
+    return f"C18|{clause}|{variant}|og={og}|goods={n}" + (f'|{extra}' if extra else '')
+
+
+def _part_g(task, rec):
+    import numpy as np
+
+    alph = alphabet(task.get('seed', _SEED))
+    goods, og, pset, ri = task['goods'], task['og'], task['pset'], task['row']
+    labs, budgets = task['labs'], task['budgets']
+    draws = [tuple(float(v) for v in e) for e in task['draws']]
+    _, one = make_rows(alph['rows'])
+    values = pset_values(alph, pset, alph['rows'][ri])
+    kind = 'magnitude' if '@' in pset else ('ties' if pset in ('T', 'U') else 'goods')
+    extra = {'magnitude': 'baseline-utilities-shifted', 'ties': 'identical-goods', 'goods': ''}[kind]
+    fails = {}      # clause -> {variant: (what, case, expected, observed)}  (first witness per variant)
+    tiny = []       # witnesses of K_TINY
+    ran = set()
+    for variant in task['variants']:
+        shapes = []
+        for prices, scale in task['shapes']:     # prices: 'if the variant has them'
+            sh = (bool(prices and HAS_PRICES[variant]), bool(scale))
+            if sh not in shapes:
+                shapes.append(sh)
+        for prices, scale in shapes:
+            cfg = dict(variant=variant, prices=prices, scale=scale, og=og, goods=goods)
+            name = cfg_name(cfg)
+            ref = Ref(cfg, values, alph['rows'][ri])
+            sols = {}
+            for budget in budgets:
+                for eps in draws:
+                    try:
+                        sols[(budget, eps)] = ref.solve(budget, eps)
+                    except (ArithmeticError, ValueError, ZeroDivisionError, OverflowError):
+                        sols[(budget, eps)] = None
+                        rec.count('skipped_reference_has_no_solution')
+            for li, lab in enumerate(labs):
+                model = build_model(cfg, lab, alph['psets']['D'])
+                model.estimation_results = _Results(values)
+                labels = lab['labels']
+                for budget in budgets:
+                    scale_b = max(1.0, budget)
+                    answers = {}
+                    for eps in draws:
+                        sol = sols[(budget, eps)]
+                        if sol is None:
+                            continue
+                        xref, lamref = sol
+                        ok, room = g_well_conditioned(ref, lamref, eps)
+                        if not ok:
+                            rec.count('skipped_ill_conditioned:multiplier-not-resolvable-above-its-lower-limit')
+                            continue
+                        ran.add(variant)
+                        case = dict(part='g', cfg=cfg, pset=pset, row=ri, budget=budget, eps=list(eps), lab=lab, seed=_SEED)
+                        where = (f'{name} params {pset} row {ri} budget {budget} eps(A,B,C)={list(eps)} labels(A,B,C)={labels} '
+                                 f'[{lab["order"]}]')
+                        ck = ('g', name, pset, ri, budget, eps, tuple(labels), lab['order'])
+                        w0 = sorted(ref.MU(k, 0.0, eps[k]) for k in goods if k != og)
+                        tie = any(w0[j] == w0[j + 1] for j in range(len(w0) - 1))
+                        if tie:
+                            rec.count('problems_with_bitwise_equal_marginal_utilities_at_zero')
+                        mag = 'tiny' if room < G_TINY else ('huge' if lamref > 1e5 else 'ordinary')
+                        rec.count('multiplier_magnitude:' + mag)
+                        out = run_one_forecast(model, cfg, lab, one[ri], budget, eps)
+                        if isinstance(out, tuple):
+                            rec.case(None, (ck, out), outcome=f'{variant}|g|{kind}|raised:{out[1]}')
+                            rec.count('forecast_raised')
+                            fails.setdefault('forecast-raises:' + out[1], {}).setdefault(
+                                variant, (f'{where}: forecast_bisection_one_draw raised {out[1]}: {out[2]}', case, dict(x=xref),
+                                          f'{out[1]}: {out[2]}'))
+                            if out[1] == 'RuntimeError':
+                                rec.retire = True
+                            continue
+                        answers[eps] = out
+                        pattern = ''.join(GOODS[k] for k in goods if out[k] > ZERO * scale_b)
+                        bad = check_forecast(ref, budget, eps, out, xref, lamref)
+                        rec.case(ck, (ck, [round(v, 9) for v in out]),
+                                 outcome=f"{variant}|g|{kind}|n={len(goods)}|{'tie|' if tie else ''}{mag}|consumed={pattern}|{'bad' if bad else 'ok'}")
+                        if bad and room < G_TINY:
+                            # the bisection's default tolerance on the multiplier is an absolute 1e-13: is that the reason?
+                            again = run_one_forecast(model, cfg, lab, one[ri], budget, eps, tol=(room * 1e-10, None, 'kw'))
+                            if not isinstance(again, tuple) and not check_forecast(ref, budget, eps, again, xref, lamref):
+                                tiny.append((f'{where}: {bad[0][0]}: {bad[0][1]} (optimal multiplier {lamref!r}, {room:.3g} above its lower '
+                                             f'limit); the same call with tolerance_dual={room * 1e-10:.3g} returns {again}', case,
+                                             dict(x=xref, dual=lamref), dict(x=out)))
+                                continue
+                            bad = [(c + '|also-with-tolerance_dual-scaled-to-the-multiplier', d) for c, d in bad]
+                        for clause, detail in bad:
+                            fails.setdefault(clause, {}).setdefault(variant, (f'{where}: {clause}: {detail}', case, dict(x=xref, dual=lamref),
+                                                                             dict(x=out)))
+                    # the data-frame entry point and the brute-force optimiser on the same problems (first labeling)
+                    if li == 0 and task.get('api') and len(answers) == len([e for e in draws if sols[(budget, e)] is not None]) and answers:
+                        active = tuple(goods)
+                        eps_list = list(answers)
+                        arr = np.zeros((len(eps_list), len(active)))
+                        for d_, eps in enumerate(eps_list):
+                            for k in active:
+                                arr[d_, model.key_to_index[labels[k]]] = eps[k]
+                        case = dict(part='g', cfg=cfg, pset=pset, row=ri, budget=budget, eps=list(eps_list[0]), lab=lab, seed=_SEED)
+                        try:
+                            frames_ = model.forecast(database=one[ri], total_budget=budget, epsilons=[arr])
+                            got = [[float(frames_[0][labels[k]].iloc[d_]) if k in active else 0.0 for k in range(3)]
+                                   for d_ in range(len(eps_list))]
+                            okf = len(frames_) == 1 and list(frames_[0].columns) == sorted(labels[k] for k in active)
+                        except Exception as ex:  # noqa: BLE001
+                            rec.case(None, (name, pset, budget, 'api', type(ex).__name__), outcome=f'{variant}|g|api-raised')
+                            fails.setdefault('forecast-api-raises:' + type(ex).__name__, {}).setdefault(
+                                variant, (f'{name} params {pset} row {ri} budget {budget} labels {labels}: Mdcev.forecast raised '
+                                          f'{type(ex).__name__}: {str(ex)[:200]}', case, None, f'{type(ex).__name__}: {str(ex)[:200]}'))
+                            if isinstance(ex, RuntimeError):
+                                rec.retire = True
+                        else:
+                            for d_, eps in enumerate(eps_list):
+                                same = okf and all(abs(got[d_][k] - answers[eps][k]) <= 1e-6 * scale_b for k in range(3))
+                                rec.case(('g-api', name, pset, ri, budget, eps), (name, pset, ri, budget, eps, [round(v, 7) for v in got[d_]]),
+                                         outcome=f"{variant}|g|api|{'same' if same else 'differs'}")
+                                if not same:
+                                    fails.setdefault('forecast-api-is-not-the-one-draw-answer', {}).setdefault(
+                                        variant, (f'{name} params {pset} row {ri} budget {budget} draw {list(eps)} labels {labels}: forecast() gives '
+                                                  f'{got[d_]} (columns {list(frames_[0].columns)}), forecast_bisection_one_draw {answers[eps]}',
+                                                  dict(case, eps=list(eps)), answers[eps], got[d_]))
+                        if len(goods) > 1 or og is None:
+                            for eps in eps_list[:task.get('nbf', 3)]:
+                                bf = run_bruteforce(model, lab, one[ri], budget, eps, active)
+                                if bf is None or isinstance(bf, tuple):
+                                    rec.count('bruteforce_returned_none' if bf is None else 'bruteforce_raised:' + bf[1])
+                                    if isinstance(bf, tuple) and bf[1] == 'RuntimeError':
+                                        rec.retire = True
+                                    continue
+                                if check_bruteforce(ref, budget, bf) or abs(sum(bf) - budget) > 1e-7 * scale_b:
+                                    rec.count('bruteforce_infeasible_skipped')
+                                    continue
+                                try:
+                                    ob = ref.objective([max(v, 0.0) for v in bf], eps)
+                                    ol = ref.objective(answers[eps], eps)
+                                except (ValueError, OverflowError, ZeroDivisionError):
+                                    rec.count('bruteforce_objective_undefined_skipped')
+                                    continue
+                                rec.count('bruteforce_compared')
+                                if ol < ob - OBJ_TOL * max(1.0, abs(ob)):
+                                    fails.setdefault('worse-than-brute-force', {}).setdefault(
+                                        variant, (f'{name} params {pset} row {ri} budget {budget} draw {list(eps)}: objective {ol!r} at '
+                                                  f'x={answers[eps]} < brute force objective {ob!r} at {bf}', dict(case, eps=list(eps)), ob, ol))
+    if task.get('sample'):
+        rec.sample(dict(part='g', goods=goods, og=og, pset=pset, failed=sorted(fails), tiny=len(tiny)))
+    if tiny:
+        what, case, expected, observed = tiny[0]
+        rec.count('further_witnesses_of_a_reported_key', len(tiny) - 1)
+        rec.violation(K_TINY, what, dict(case, key=K_TINY), expected=expected, observed=observed)
+    force = task.get('force_key')
+    cfg0 = dict(og=og, goods=goods)
+    for clause, per in fails.items():
+        everywhere = len(ran) > 1 and set(per) >= ran
+        for variant, (what, case, expected, observed) in sorted(per.items()):
+            key = force if force is not None else gkey(clause, 'variant:any' if everywhere else variant, cfg0, extra)
+            rec.violation(key, what, dict(case, key=key), expected=expected, observed=observed)
+            if everywhere:
+                break
+
+
+
 # --------------------------------------------------------------------------- tasks
 def tasks(tier, seed):
     t = []
@@ -2210,6 +2468,62 @@ def tasks(tier, seed):
                 if hs:
                     t.append(dict(part='e', cfg=cfg, lab=labs[(9, 0, 8)[ci % 3]], weights=bool(ci % 2), histories=hs, seed=seed,
                                   sample=ci == 0 and first[0] == 'E' and first[1] == 'A'))
+    # goods (1 or 2 of them), ties (identical goods), magnitudes (every baseline utility shifted): part g
+    nat, odd = labs[0], labs[8]      # labels 1,2,3 (a subset {B, C} has labels 2,3 at positions 0,1) and 8,1,2
+    full_shape, bare_shape = [True, True], [False, False]
+    if tier == 'quick':
+        gi = 0
+        for goods, og in subsets_with_og((1, 2)):
+            n = len(goods)
+            all_draws = [[e[goods.index(k)] if k in goods else 0.0 for k in range(3)] for e in itertools.product(firsts, repeat=n)]
+            for pset in ('T', ('D', 'B')[gi % 2]):
+                if n == 1 and pset == 'T':
+                    continue     # one good: no tie
+                t.append(dict(part='g', goods=goods, og=og, pset=pset, row=gi % 2, labs=[nat, odd], budgets=[1.0, (10.0, BIG_BUDGET)[gi % 2]],
+                              draws=all_draws, variants=list(VARIANTS), shapes=[full_shape], api=True, nbf=1, seed=seed, sample=gi == 0))
+            gi += 1
+        for gi, og in enumerate((None, 0, 1, 2)):
+            # three identical goods (T): all 27 draws; A and B identical (U): the 9 draws with eps_A = eps_B
+            for pset, dr in (('T', [list(e) for e in ALL_DRAWS]), ('U', [[e0, e0, e2] for e0 in firsts for e2 in firsts])):
+                for vs in (VARIANTS[:2], VARIANTS[2:]):
+                    t.append(dict(part='g', goods=[0, 1, 2], og=og, pset=pset, row=gi % 2, labs=[(nat, odd)[gi % 2]], budgets=[1.0, 10.0],
+                                  draws=dr, variants=list(vs), shapes=[full_shape], api=pset == 'U', nbf=1, seed=seed))
+        for si, sh in enumerate(SHIFTS_QUICK):
+            for oi, og in enumerate((None, 1)):
+                t.append(dict(part='g', goods=[0, 1, 2], og=og, pset=f'D@{sh}', row=(si + oi) % 2, labs=[nat], budgets=[10.0, 100.0],
+                              draws=[list(ALL_DRAWS[(5 + 7 * j + 3 * si + oi) % 27]) for j in range(3)], variants=list(VARIANTS),
+                              shapes=[full_shape], api=False, seed=seed))
+    else:
+        g_labs = [quick_labs[i] for i in (0, 8, 3, 6, 9, 10)]
+        for goods, og in subsets_with_og((1, 2)):
+            n = len(goods)
+            all_draws = [[e[goods.index(k)] if k in goods else 0.0 for k in range(3)] for e in itertools.product(firsts, repeat=n)]
+            for pset in ('D', 'A', 'B', 'T', 'U'):
+                if n == 1 and pset in ('T', 'U'):
+                    continue
+                for ri in (0, 1):
+                    t.append(dict(part='g', goods=goods, og=og, pset=pset, row=ri, labs=g_labs, budgets=[0.125, 1.0, 10.0, BIG_BUDGET],
+                                  draws=all_draws, variants=list(VARIANTS), shapes=[full_shape, bare_shape, [False, True]], api=True, nbf=3,
+                                  seed=seed))
+        for og in (None, 0, 1, 2):
+            for pset in ('T', 'U'):
+                for ri in (0, 1):
+                    for variant in VARIANTS:
+                        t.append(dict(part='g', goods=[0, 1, 2], og=og, pset=pset, row=ri, labs=[nat, odd, quick_labs[9]],
+                                      budgets=[0.125, 1.0, 10.0, BIG_BUDGET], draws=[list(e) for e in ALL_DRAWS], variants=[variant],
+                                      shapes=[full_shape, bare_shape], api=True, nbf=3, seed=seed))
+        for sh in SHIFTS_THOROUGH:
+            for og in (None, 0, 1):
+                for ri in (0, 1):
+                    for e0 in firsts:
+                        t.append(dict(part='g', goods=[0, 1, 2], og=og, pset=f'D@{sh}', row=ri, labs=[nat, odd], budgets=[1.0, 100.0, 1e5],
+                                      draws=[[e0] + tl for tl in tails], variants=list(VARIANTS), shapes=[full_shape, bare_shape],
+                                      api=e0 == 0.0, nbf=2, seed=seed))
+            for goods, og in subsets_with_og((1, 2)):
+                n = len(goods)
+                all_draws = [[e[goods.index(k)] if k in goods else 0.0 for k in range(3)] for e in itertools.product(firsts, repeat=n)]
+                t.append(dict(part='g', goods=goods, og=og, pset=f'B@{sh}', row=1, labs=[nat], budgets=[1.0, 100.0], draws=all_draws,
+                              variants=list(VARIANTS), shapes=[full_shape], api=False, seed=seed))
     h_lab = [labs[0], labs[9]] if tier == 'thorough' else [labs[9]]
     for cfg in cfgs:
         if cfg['prices'] != HAS_PRICES[cfg['variant']] or not cfg['scale']:
@@ -2219,6 +2533,13 @@ def tasks(tier, seed):
         for lab in h_lab:
             for first in h_ops():
                 t.append(dict(part='h', cfg=cfg, lab=lab, prefix=[list(first)], depth=h_depth, seed=seed))
+        # the same histories with refused assignments mixed in (quick: the dictionary of values; thorough: also None, a number)
+        refused = list(X_VALUES[:1] if tier == 'quick' else X_VALUES)
+        if tier == 'quick' and cfg['og'] != (None, 1)[VARIANTS.index(cfg['variant']) % 2]:
+            continue     # quick: one configuration per variant, with / without an outside good alternating
+        for first in h_ops(refused):
+            t.append(dict(part='h', cfg=cfg, lab=h_lab[-1], prefix=[list(first)], depth=h_depth, refused=refused, only_with_refused=True,
+                          seed=seed))
     return t
 
 
@@ -2241,6 +2562,8 @@ def run_task(task):
         _part_b(task, rec)
     elif part == 'e':
         _part_e(task, rec)
+    elif part == 'g':
+        _part_g(task, rec)
     return rec.result()
 
 
@@ -2258,6 +2581,11 @@ def replay(case):
         _part_f(task, rec)
     elif part == 'a':
         _part_a(dict(case), rec)
+    elif part == 'g':
+        cfg = case['cfg']
+        _part_g(dict(part='g', goods=cfg['goods'], og=cfg['og'], pset=case['pset'], row=case['row'], labs=[case['lab']],
+                     budgets=[case['budget']], draws=[case['eps']], variants=[cfg['variant']], shapes=[[cfg['prices'], cfg['scale']]],
+                     api=True, nbf=1, seed=seed, force_key=case.get('key')), rec)
     elif part == 'd':
         _part_d(dict(part='d', cfg=case['cfg'], pset=case['pset'], lab=case['lab'], budget=case['budget'], frames=[case['frame']],
                      ndraws=case['ndraws'], seed=seed, force_cls=case.get('cls')), rec)
